@@ -101,7 +101,8 @@ inductive CAtom
   | lenEq (n : Nat)                           -- `len(arg) == n`
   | elemInst (i : Nat) (t : Ty)               -- `isinstance(arg[i], t)`
   | userChk (fn : Nat) (ps : List (Option Nat))   -- `T.check(arg)` (also `bool(rx.search(arg))`)
-  | inst (t : Ty)                             -- `isinstance(arg, t)` for a member without `codegen`
+  | inst (t : Ty)                             -- `isinstance(arg, t)` for a type without `codegen`
+  | member (t : Ty)                           -- `( <guarded checking code of a Union / Intersection member> )`
 
 inductive Tok | atom (a : CAtom) | or | and
 
@@ -119,12 +120,46 @@ def toks : Nat → Ty → List Tok
     | .prod ps _ =>
       joinToks .and ([[Tok.atom (.lenEq ps.length)]] ++ (ps.zipIdx.map (fun (p, i) => [Tok.atom (.elemInst i p)])))
     | .fdep fn ps _ => [.atom (.userChk fn ps)]
-    | .union ts => joinToks .or (ts.map (toks f))
-    | .inter ts => joinToks .and (ts.map (toks f))
+    | .union ts => joinToks .or (ts.map (fun m => [Tok.atom (.member m)]))
+    | .inter ts => joinToks .and (ts.map (fun m => [Tok.atom (.member m)]))
     | t => [.atom (.inst t)]
+
+/-- Python `and` of two already evaluated operands is not what we want (short-circuit): `andThen a b` evaluates
+    `b` only when `a` is true -/
+def Tri.andThen (a : Tri) (b : Unit → Tri) : Tri :=
+  match a with
+  | .yes => b ()
+  | x => x
+
+/-- `generate_guarded_checking_code(t)` evaluated on `v`, as one parenthesised unit (types.py L323-329 / L374-380,
+    dependent.py `generate_guarded_checking_code`): a value-dependent member is guarded by its bound (unless the
+    bound is `object`); `wholeCheck` is `generate_checking_code(t)` evaluated as a whole -/
+def memberCheck : Nat → Ty → DVal → Tri
+  | 0, _, _ => .raises
+  | f + 1, t, v =>
+    let whole : Ty → Tri := fun t =>
+      match t with
+      | .lit keys _ => Tri.ofBool (keys.contains v.eq)
+      | .prod ps _ =>
+        if v.kind == .plain then .raises
+        else if v.elems.length != ps.length then .no
+        else if v.kind != .seq then (if ps.isEmpty then .yes else .raises)
+        else instOf.allTri ((ps.zip v.elems).map (fun p => isinstanceOfAux p.1 p.2))
+      | .fdep fn ps _ => W.chk fn ps v.vid
+      | .union ms => instOf.anyTri (ms.map (fun m => memberCheck f m v))
+      | .inter ms => instOf.allTri (ms.map (fun m => memberCheck f m v))
+      | .gen .. => Tri.ofBool (subclasscheck W.H (.cls v.cls) t)
+      | t => isinstanceOfAux t v
+    match t with
+    | .lit _ b | .prod _ b | .fdep _ _ b =>
+      if b == .cls 0 then whole t
+      else Tri.andThen (whole b) (fun _ => whole t)
+    | t => whole t
+where isinstanceOfAux (t : Ty) (v : DVal) : Tri := instOf W (t.size + v.size + 1) t v
 
 def evalAtom (a : CAtom) (v : DVal) : Tri :=
   match a with
+  | .member t => memberCheck W (t.size + 1) t v
   | .eqLit keys => Tri.ofBool (keys.contains v.eq)
   | .lenEq n => if v.kind == .plain then .raises else Tri.ofBool (v.elems.length == n)
   | .elemInst i t =>
@@ -224,10 +259,14 @@ def stratSlots (hs : List DHandler) : List Slot → StratState → StratState
         match dedupNats (featured.map (pyKind W)) with
         | [kind] =>
           if kind == 3 then
-            -- keyable: `get_keys()` returns the first literal only
-            let firsts := hs.map (fun h => match dTyAt h s with | .lit (k :: _) _ => some k | _ => none)
-            let keyed := (hs.zip firsts).foldl (fun d p => match p.2 with | some k => dictSet d k p.1.1 | none => d) []
-            if keyed.length == (firsts.filter Option.isSome).length && featured.length < 4 then
+            -- keyable: every value of each Literal is a key (`get_keys()`); a key shared by two handlers
+            -- (equal values, 1 == True) disables both shortcuts
+            let keysOf (h : DHandler) : List Nat := match dTyAt h s with | .lit ks _ => dedupNats ks | _ => []
+            let keyed := hs.foldl (fun d h => (keysOf h).foldl (fun d k => dictSet d k h.1) d) []
+            let total := (hs.map (fun h => (keysOf h).length)).foldl (· + ·) 0
+            if keyed.length != total then
+              { st with exclusive := false, keySlot := none, keyed := [] }
+            else if featured.length < 4 then
               { st with exclusive := true, keySlot := none, keyed := keyed }
             else { st with keySlot := some s, keyed := keyed }
           else { st with exclusive := false }
@@ -259,15 +298,20 @@ deriving DecidableEq, Repr
 def argAt (args : List (Slot × DVal)) (s : Slot) : Option DVal :=
   (args.find? (fun p => p.1 == s)).map (·.2)
 
-/-- the conjunction emitted for one handler (L228-238): the per-slot templates joined by ` and `, again
-    without parentheses -/
-def conj (args : List (Slot × DVal)) (k : List Slot) (h : DHandler) : Tri :=
-  let parts := (relevantSlots k h).map (fun s =>
+/-- the conjunction emitted for one handler (L228-238): each relevant argument's condition, parenthesised,
+    joined by `and` (left to right, short-circuit) -/
+def conjGo (W : DWorld) (args : List (Slot × DVal)) (h : DHandler) : List Slot → Tri
+  | [] => .yes
+  | s :: r =>
     match argAt args s with
-    | some v => some (withArg v (toks ((dTyAt h s).size + 1) (dTyAt h s)))
-    | none => none)
-  if parts.any Option.isNone then .raises
-  else evalOr W (splitOr (joinToksV .and (parts.filterMap id)))
+    | none => .raises
+    | some v =>
+      match genCheck W (dTyAt h s) v with
+      | .yes => conjGo W args h r
+      | x => x
+
+def conj (args : List (Slot × DVal)) (k : List Slot) (h : DHandler) : Tri :=
+  conjGo W args h (relevantSlots k h)
 
 /-- behaviour of the emitted `__DEPENDENT_DISPATCH__` (L246-268) -/
 def dispatch (k : List Slot) (hs : List DHandler) (args : List (Slot × DVal)) : DRes :=
